@@ -101,6 +101,7 @@ package remote
 //@   ensures [C15:error-unchanged] result != nil ==> result == tagLastErr
 //@
 //@ import digest "github.com/opencontainers/go-digest"
+//@ import descriptor "oras.land/oras-go/v2/internal/descriptor"
 //@ import registry "oras.land/oras-go/v2/registry"
 //@
 //@ func verifyContentDigest
@@ -256,8 +257,16 @@ package remote
 //@ func buildRepositoryBlobMountURL
 //@   ensures [C20:url-shape] result == repoBaseURL(plainHTTP, ref) + "/blobs/uploads/" + "?mount=" + d + "&from=" + fromRepo
 //@   modifies alloc, elems[any], elems[string]
+//@ ghost local bruEncoded string
+//@ ghost local bruSet bool
 //@ func buildReferrersURL
+//@   entry set bruSet = false
+//@   call Set requires [C13,C20:filter-sent-as-the-artifactType-query-parameter] args.key == "artifactType" && args.value == artifactType
+//@   call Set set bruSet = true
+//@   call Encode requires [C13,C20:query-is-the-form-encoding-of-the-filter] bruSet
+//@   call Encode set bruEncoded = result
 //@   ensures [C20:url-shape] artifactType == "" ==> result == repoBaseURL(plainHTTP, ref) + "/referrers/" + ref.Reference
+//@   ensures [C13,C20:filtered-url-shape] artifactType != "" ==> result == repoBaseURL(plainHTTP, ref) + "/referrers/" + ref.Reference + ("?" + bruEncoded)
 //@   modifies alloc, elems[any], elems[string]
 //@
 //@ // ---------------------------------------------------------------- referrers capability (C14)
@@ -291,6 +300,10 @@ package remote
 //@ func generateIndex
 //@   trusted
 //@   modifies alloc, elems[byte], elems[any]
+//@
+//@ func applyReferrerChanges
+//@   trusted
+//@   modifies alloc, elems[ocispec.Descriptor], new map[descriptor.Descriptor]int
 //@
 //@ ghost local uriFound bool
 //@ func (*manifestStore).updateReferrersIndex$1
@@ -334,4 +347,5 @@ package remote
 //@   requires [wf] s != nil && s.repo != nil
 //@   call buildReferrersTag requires [C14:tag-of-the-subject] args.desc == subject
 //@   call Get requires [C14:one-merge-object-per-referrers-tag] args.key == box(referrersTag)
+//@   call Get assume [merge-objects-of-the-pool-satisfy-their-invariant: zero value does, every method keeps it] mergeRI(result0)
 //@   call Do requires [C14:this-change-enters-the-batch] args.item == change
